@@ -369,6 +369,11 @@ func runCheck(o *Options) int {
 		for _, sr := range w.runScenariosFor(o, names) {
 			scenarioRuns = append(scenarioRuns, map[string]interface{}{"driver": sr.test, "obligation": sr.obligation, "failed": sr.res.Reproduced})
 			if sr.res.Reproduced {
+				if f := kf.matchLoose(o.Prop, sr.obligation); f != nil {
+					// the driver of a listed finding reproduces it: reported once, not an alarm
+					fmt.Printf("KNOWN-FINDING: property=%s %s reproduced by scenario driver %s\n", o.Prop, strings.TrimSpace(sr.obligation), sr.test)
+					continue
+				}
 				violations++
 				path := filepath.Join(replayDir, sanitize(o.Prop+"-scenario-"+sr.test)+".txt")
 				os.WriteFile(path, []byte(sr.res.Text), 0o644)
